@@ -25,6 +25,13 @@ for pid, commit, text in rows:
         out = subprocess.run([os.path.join(VERIF, "check"), pid, "--tier", "quick"], env=env, capture_output=True, text=True).stdout
         sigs = re.findall(r"sig=(\S+)", out)
         hit = "VIOLATION property=%s" % pid in out
+        if hit and os.environ.get("SAVE_REGRESS"):
+            # keep the shrunk inputs as the replay tier of this property (they must pass on the repaired tree)
+            import glob
+            os.makedirs(os.path.join(VERIF, "regress", pid), exist_ok=True)
+            for f in glob.glob(os.path.join(d, "replays", pid, "*.bin"))[:2]:
+                base = os.path.basename(f).rsplit("-", 1)[0]        # <harness>-<mode>
+                shutil.copyfile(f, os.path.join(VERIF, "regress", pid, "%s-fix%s-%s" % (base, commit, os.path.basename(f).rsplit("-", 1)[1])))
         ok &= hit
         print("%s %s  %s  %s   [%s]" % (pid, commit, "DETECTED" if hit else "MISSED  ", ",".join(sorted(set(sigs)))[:120], text[:70]))
     finally:
